@@ -69,6 +69,7 @@ func sampleAlphabet(withVendor bool) []namedSample {
 		{"flow{raw}", sfh.FlowSample(0, sfh.Rec("raw", 0))},
 		{"flow{sw}", sfh.FlowSample(0, sfh.Rec("sw", 0))},
 		{"flow{rt4}", sfh.FlowSample(0, sfh.Rec("rt4", 0))},
+		{"flow{rt0,sw}", sfh.FlowSample(0, sfh.Rec("rt0", 0), sfh.Rec("sw", 1))},
 		{"flow{raw,sw,rt6}", sfh.FlowSample(1, sfh.Rec("raw", 13), sfh.Rec("sw", 1), sfh.Rec("rt6", 0))},
 		{"flow{unk,raw}", sfh.FlowSample(0, sfh.Rec("unknown", 2), sfh.Rec("raw", 20))},
 		{"flow{}", sfh.FlowSample(0)},
@@ -173,7 +174,7 @@ func init() {
 	}
 	// sflow.flowrec: one flow sample, all ordered selections of <=3 distinct record types
 	spaces["sflow.flowrec"] = func(tier string) mck.Space {
-		kinds := []string{"raw", "sw", "rt4", "rt6", "unknown", "vendor-std-format"}
+		kinds := []string{"raw", "sw", "rt4", "rt6", "rt0", "unknown", "vendor-std-format"}
 		n := uint64(len(kinds) + 1)
 		dims := mck.Radix{n, n, n, 2, 27}
 		return mck.FuncSpace{N: dims.Size(), F: func(idx uint64, c *mck.Ctx) {
@@ -189,7 +190,7 @@ func init() {
 				}
 				kd := kinds[k-1]
 				base := kd
-				if kd == "rt4" || kd == "rt6" {
+				if kd == "rt4" || kd == "rt6" || kd == "rt0" {
 					base = "rt"
 				}
 				if ended || seen[base] {
@@ -261,7 +262,7 @@ func init() {
 		}
 		for _, p := range []int{3, 4} {
 			p := p
-			for _, k := range []string{"rt4", "rt6"} {
+			for _, k := range []string{"rt4", "rt6", "rt0"} {
 				k := k
 				cases = append(cases, oh{fmt.Sprintf("%s.mask%d", k, p), func() *ref.SFDatagram { return baseDG(false, sfh.FlowSample(2, sfh.Rec(k, p))) }})
 			}
